@@ -184,8 +184,8 @@ Definition ex_oracles : toracles :=
                                           | 60%N :: c :: _ => AP_ok [c] None RLocal          (* <x...> *)
                                           | _ => AP_nobracket end;
                    o_ext := fun _ => Ext_ok 0 0 None; o_relay := 0%Z; o_mx := fun _ => 0;
-                   o_qq := fun _ => QQ_ok; o_databytes := 0%N; o_liphost := []; o_check2822 := false; o_trace := fun _ _ _ _ _ => [67; 10]%N |};
-     o_trace_tls := fun _ _ _ _ _ => [84; 10]%N; o_certfile := true; o_tlsinit := true; o_eat := 5 |}.
+                   o_qq := fun _ => QQ_ok; o_databytes := 0%N; o_liphost := []; o_check2822 := false; o_authperm := false; o_auth := fun _ => Auth_multi; o_trace := fun _ _ _ _ _ _ => [67; 10]%N |};
+     o_trace_tls := fun _ _ _ _ _ _ => [84; 10]%N; o_certfile := true; o_tlsinit := true; o_eat := 5 |}.
 Definition ehlo : bytes := [69;72;76;79;32;120;13;10]%N.
 Definition starttls : bytes := [83;84;65;82;84;84;76;83;13;10]%N.
 Definition mail (c : N) : bytes := [77;65;73;76;32;70;82;79;77;58;60;c;62;13;10]%N.
